@@ -1,7 +1,9 @@
 (* C16 — edge recomputation touches only burst edges and only grows bursts.
    Model: Model/Edges.v.  is_edge lab i: cycle i is the non-burst cycle immediately before or
    after a burst (located from the transitions of the label column).  The growth theorem uses the
-   binary64 threshold order (Flocq); the frame / value / labelling theorems are structural. *)
+   binary64 threshold order (Flocq); the frame / value / labelling theorems are structural.
+   "Returns a new table / the input table is untouched" is a statement about Python object identity and
+   mutation: the model is functional, so that clause is checked by the statement oracle only. *)
 From Coq Require Import List Arith Bool ZArith Floats.PrimFloat.
 Import ListNotations.
 From ByC Require Import Base.Result Base.FloatBase Model.Runs Model.Labels Model.BurstFeat Model.Edges
@@ -18,6 +20,24 @@ Theorem C16_edges_are_adjacent_to_a_burst : forall lab i,
   nth (S i) lab false = true \/ (1 <= i /\ nth (i - 1) lab false = true).
 Proof. exact is_edge_adjacent. Qed.
 Print Assumptions C16_edges_are_adjacent_to_a_burst.
+
+(* completeness: in a table whose first and last cycle are not bursting (every table produced by
+   consistency burst detection), EVERY non-burst cycle immediately before or after a burst is an edge *)
+Theorem C16_every_nonburst_cycle_next_to_a_burst_is_an_edge : forall lab i,
+  nth 0 lab false = false -> nth (length lab - 1) lab false = false ->
+  nth i lab false = false ->
+  (nth (S i) lab false = true \/ (1 <= i /\ nth (i - 1) lab false = true)) ->
+  is_edge lab i.
+Proof. exact is_edge_complete. Qed.
+Print Assumptions C16_every_nonburst_cycle_next_to_a_burst_is_an_edge.
+
+(* so the edges are exactly "the cycles immediately outside each detected burst" *)
+Theorem C16_edges_are_exactly_the_cycles_immediately_outside_bursts : forall lab i,
+  nth 0 lab false = false -> nth (length lab - 1) lab false = false ->
+  (is_edge lab i <->
+   nth i lab false = false /\ (nth (S i) lab false = true \/ (1 <= i /\ nth (i - 1) lab false = true))).
+Proof. exact is_edge_iff. Qed.
+Print Assumptions C16_edges_are_exactly_the_cycles_immediately_outside_bursts.
 
 (* frame: a cell differs from the input only if its column is amp/period consistency and its row
    is a burst edge; everything else (and the row count) is unchanged *)
@@ -46,6 +66,33 @@ Theorem C16_edge_values_are_one_sided : forall (X : Type) peak (rows out : list 
       isnan (f_ac (e_feat r')) = true /\ isnan (f_pc (e_feat r')) = true)).
 Proof. exact @recompute_all_edge_value. Qed.
 Print Assumptions C16_edge_values_are_one_sided.
+
+(* ... and the direction is the one LOOKING INTO THE BURST: Next exactly when the burst follows the edge
+   cycle (edge_dir lab j = if lab[j+1] then Next else Last) *)
+Theorem C16_edge_value_looks_into_the_burst : forall (X : Type) peak (rows out : list (@edrow X)) j,
+  nth 0 (map e_lab rows) false = false -> nth (length rows - 1) (map e_lab rows) false = false ->
+  recompute_all peak rows = Ok out -> is_edge (map e_lab rows) j ->
+  exists r', nth_error out j = Some r' /\
+    ((1 <= j /\ j + 1 < length rows /\
+      f_ac (e_feat r') = clamp0 (amp_cons_at peak (edge_dir (map e_lab rows) j) (map e_rise rows) (map e_decay rows) j) /\
+      f_pc (e_feat r') = period_cons_at (edge_dir (map e_lab rows) j) (map e_period rows) j) \/
+     ((j = 0 \/ j + 1 = length rows) /\
+      isnan (f_ac (e_feat r')) = true /\ isnan (f_pc (e_feat r')) = true)).
+Proof. exact @recompute_all_edge_value_dir. Qed.
+Print Assumptions C16_edge_value_looks_into_the_burst.
+
+(* a single non-burst cycle between two bursts is the end of the first and the start of the second:
+   it ends with the value looking into the FOLLOWING burst (the later write wins) *)
+Theorem C16_single_gap_between_two_bursts_looks_next : forall (X : Type) peak (rows out : list (@edrow X)) j,
+  nth 0 (map e_lab rows) false = false -> nth (length rows - 1) (map e_lab rows) false = false ->
+  recompute_all peak rows = Ok out -> 1 <= j ->
+  nth (j - 1) (map e_lab rows) false = true -> nth j (map e_lab rows) false = false ->
+  nth (S j) (map e_lab rows) false = true ->
+  exists r', nth_error out j = Some r' /\
+    f_ac (e_feat r') = clamp0 (amp_cons_at peak Next (map e_rise rows) (map e_decay rows) j) /\
+    f_pc (e_feat r') = period_cons_at Next (map e_period rows) j.
+Proof. exact @recompute_all_gap_between_two_bursts_looks_next. Qed.
+Print Assumptions C16_single_gap_between_two_bursts_looks_next.
 
 (* the new labels are the threshold-and-run rule applied to the edited table; nothing else changes *)
 Theorem C16_relabelled_by_the_rule : forall (X : Type) peak t n (rows out : list (@edrow X)) d,
